@@ -209,9 +209,9 @@ def spaces(tier, seed):
     walks = "fresh part per threshold {0,63,64,126,127} + assignment walk (all 25 ordered threshold pairs on every 4th case, up/down on the others)"
     n012 = note_lists(0, G4) + note_lists(1, G4) + note_lists(2, G4)
     sp.append(Space(
-        "pedal-core", product_space(n012, control_streams(2, PT6, K4)), True,
-        "0-2 notes (ordered, pitches 60/61, first 60, channels 0/1), on<=off on grid 0..3; <=2 control events at "
-        "distinct increasing times from {.5,1,1.5,2,2.5,3.5}, kinds cc64 in {0,64,127} and cc67=127; " + walks +
+        "pedal-core", product_space(note_lists(0, G3) + note_lists(1, G3) + note_lists(2, G3), control_streams(2, PT5, K4)), True,
+        "0-2 notes (ordered, pitches 60/61, first 60, channels 0/1), on<=off on grid 0..2; <=2 control events at "
+        "distinct increasing times from {.5,1,1.5,2,2.5}, kinds cc64 in {0,64,127} and cc67=127; " + walks +
         "; (ppq,mpq) and tick keys cycled"))
     sp.append(Space(
         "three-same-pitch", product_space(note_lists(3, G3, SAME3), control_streams(2, PT5, [[64, 127], [64, 0]])), True,
@@ -229,7 +229,7 @@ def spaces(tier, seed):
         "three-notes", product_space(note_lists(3, G3), control_streams(2, PT5, K4), block=blk), True,
         "3 notes (pitch patterns 60xx over {60,61}), grid 0..2; <=2 control events at increasing times from "
         "{.5,1,1.5,2,2.5}, kinds as pedal-core" + ("" if blk is None else "; quick: diagonal block %d of %d of the product" % (blk[1], B3))))
-    BW = 128
+    BW = 64
     blk = None if thorough else (BW, seed % BW)
     sp.append(Space(
         "pedal-wide", product_space(n012, control_streams(3, PT8, K5), block=blk), True,
